@@ -53,7 +53,7 @@ func (v *FlagValue) String() string {
 		return ""
 	}
 
-	return toString(v.Config(), v.collector.GetOptions(), v.onError)
+	return toString(v.Config(), v.collector.GetOptions())
 }
 
 func (v *FlagValue) Get() interface{} {
@@ -66,19 +66,19 @@ func (v *FlagValue) Set(arg string) error {
 	return reportErr
 }
 
-func (v *FlagValue) onError(err error) error {
-	return v.collector.Add(nil, err)
-}
-
-func toString(cfg *ucfg.Config, opts []ucfg.Option, onError func(error) error) string {
+// toString renders the settings collected so far. It only reads: a value that
+// can not be rendered yet (a reference to a setting that a later argument will
+// supply, like in a default value the flag package prints when the flag is
+// registered) is no error of any argument, and must not stop the collection.
+func toString(cfg *ucfg.Config, opts []ucfg.Option) string {
 	var tmp map[string]interface{}
 	if err := cfg.Unpack(&tmp, opts...); err != nil {
-		return onError(err).Error()
+		return err.Error()
 	}
 
 	js, err := json.Marshal(tmp)
 	if err != nil {
-		return onError(err).Error()
+		return err.Error()
 	}
 
 	return string(js)
